@@ -723,19 +723,23 @@ Definition meta_noti (name : string) (now : Z) (k : string) (v : tv) : notif :=
         [Upd (Some (gp_of_names [md_root; k])) (Some v) 0] [] false.
 
 (** the stored value at metadata.Path(k) compared with the metadata field:
-    [Ok true] = an update has to be generated *)
+    [Ok true] = an update has to be generated (never an error or a panic
+    since af7b746; the [outcome] type is kept for the callers) *)
 Definition meta_differs (t : target) (k : string) (same : tv -> option bool) : outcome bool :=
   match CTreeModel.lookup (t_tree t) [md_root; k] with
-  | None => Ok true                        (* prev == nil (absent, or a branch) *)
+  | None => Ok true                        (* absent, or a branch *)
   | Some prev =>
+      (* metaLeafValue (af7b746): nothing about the stored leaf is assumed; a
+         leaf without update or value, or holding a value of another kind,
+         counts as different *)
       match n_upd prev with
-      | [] => Panic panic_old_update
+      | [] => Ok true
       | u :: _ =>
           match u_val u with
-          | None => Panic panic_nil_val
+          | None => Ok true
           | Some v =>
               match same v with
-              | None => Panic panic_meta_assert
+              | None => Ok true
               | Some b => Ok (negb b)
               end
           end
